@@ -52,7 +52,7 @@ def case_of(q, idx):
             body += bytes([1, 0]) + struct.pack("<HH", ln + pad - 1, len(w)) + b + b"\0" * pad
         elif p["t"] == "index":
             ne = 4095 if idx % 89 == 3 else 1 + idx % 3          # now and then the largest packet the length field can express (65536 bytes)
-            body += bytes([0, 0]) + struct.pack("<HH", 16 + 16 * ne - 1, ne) + bytes(10) + bytes((i * 7) % 256 for i in range(16 * ne))
+            body += bytes([0, 0]) + struct.pack("<HH", 16 + 16 * ne - 1, ne) + bytes([idx % 6]) + bytes(9) + bytes((i * 7) % 256 for i in range(16 * ne))
         else:
             ln = 65536 if idx % 97 == 5 else 4 * (1 + idx % 5)
             body += bytes([2, 0]) + struct.pack("<H", ln - 1) + bytes(255 - (i % 200) for i in range(ln - 4))
